@@ -3,10 +3,12 @@
   naturals.  Each property contributes `Handlers/H<id>.lean` exporting a list; append it here.
 -/
 import Handlers.Basic
+import Handlers.HC07
 
 namespace Handlers
 
 def all : List (String × (List Nat → Option String)) :=
   []
+  ++ hC07
 
 end Handlers
